@@ -18,9 +18,9 @@ CHECKS = {
  "C15": dict(engine="ENUM", design="§4 C15", technique="bounded-exhaustive enumeration of a frame parameter lattice through the real frame_header/frame_body against an RFC 9113 reference decoder",
    text="(a) 1.5 million frames (type x flags x stream id x declared length x payload present x pad length) are decoded by the real mux parser and by a reference decoder: accept/reject class, error code, consumed length (exactly 9 + declared payload on accept) and decoded content must agree; no panic.",
    note="Part (a) only so far: the stateless decoder. Stateful connection behaviour (stream states, floods, GOAWAY classes, other connections keep being served) needs the SIM engine."),
- "C18": dict(engine="ENUM", design="§4 C18", technique="bounded-exhaustive enumeration of PROXY v2 headers at every truncation through the real parser, plus serialise/parse round trips",
-   text="(a) every PROXY v2 header of the family x command x declared-length lattice (TLV tails, oversized, bad signature/version) at every truncation is parsed by parse_v2_header and compared with a reference (accept / incomplete / reject, consumed length, addresses); every header sozu builds round-trips through into_bytes/parse.",
-   note="Part (a) only so far: the codec. TCP relay byte-exactness, half-close ordering and the three PROXY modes on live sessions need the SIM engine."),
+ "C18": dict(engine="ENUM+SIM", design="§4 C18", technique="bounded-exhaustive enumeration of PROXY v2 headers at every truncation through the real parser; deviation-bounded exhaustive schedule exploration (short / would-block reads and writes, readiness order, sender cut positions) of TCP sessions through an unmodified worker",
+   text="(a) every PROXY v2 header of the family x command x declared-length lattice (TLV tails, oversized, bad signature/version) at every truncation is parsed by parse_v2_header and compared with a reference (accept / incomplete / reject, consumed length, addresses); every header sozu builds round-trips through into_bytes/parse. (b) TCP sessions through a real worker: plain relay both ways with sizes straddling the buffer boundaries and four endings (both open, backend closes, client closes, client half-closes); send mode (header must carry the true client and listener addresses); expect and relay modes with incoming TCP4 / TCP6 / LOCAL / UNSPEC / UNIX / TLV / 233-byte / 64 KiB / bad signature / bad version / bad length headers, separate from or coalesced with the payload and cut at every byte; every schedule with at most 1 (quick) / 2 (thorough) deviations. Oracle: backend stream = [exactly one well-formed header] + exactly the payload, client stream = exactly the answer, end-of-stream only after all bytes, malformed headers close without forwarding.",
+   note="Upgraded WebSocket pipes are not driven yet (they share Pipe with the TCP sessions checked here). splice(2) is off in the harness build (default features), so lib/src/splice.rs is not exercised."),
  "C20": dict(engine="ENUM", design="§4 C20", technique="bounded-exhaustive enumeration of generated TOML files (structure lattice, option toggles, scale family, constraint-violating neighbours) through the real loader and a fresh ConfigState",
    text="610 (quick) / 2300+ (thorough, pairwise options) generated configuration files go through Config::load_from_path, generate_config_messages and ConfigState::dispatch: every accepted file must produce commands a fresh state accepts in full and a state containing exactly the declared listeners/clusters/frontends/backends/certificates with the documented defaults the oracle names; reloading must change nothing; 18 constraint-violating neighbours must be rejected at load; sizes 1..1000 per object kind.",
    note="Defaults not named by the oracle are only covered through reload idempotence. TOML grammar slice: see the generator families in harness/src/checks/c20.rs."),
